@@ -24,6 +24,7 @@ import (
 	"go/token"
 	"os"
 	"path/filepath"
+	"reflect"
 	"sort"
 	"strings"
 )
@@ -300,7 +301,7 @@ func firstFor(fn ast.Node) *ast.ForStmt {
 // normalise prints a node with comments dropped, locals alpha-renamed by first
 // occurrence, and logging statements removed.
 func (p *pkgFiles) normalise(n ast.Node) string {
-	if n == nil {
+	if n == nil || reflect.ValueOf(n).IsNil() {
 		return "<absent>"
 	}
 	var b bytes.Buffer
@@ -456,4 +457,16 @@ func main() {
 	flag.Parse()
 	extractAll()
 	writeAll()
+}
+
+// safely runs one group of extractors: a construct gx does not understand must never stop
+// the run — whatever was not emitted is then missing from Generated/*.lean and the
+// obligations that need it fail.
+func safely(name string, f func()) {
+	defer func() {
+		if r := recover(); r != nil {
+			fmt.Fprintf(os.Stderr, "gx: extractor %s panicked: %v\n", name, r)
+		}
+	}()
+	f()
 }
